@@ -1,0 +1,98 @@
+//go:build verif
+
+package mailbox
+
+import (
+	"context"
+	"net"
+
+	"github.com/lightninglabs/lightning-node-connect/hashmailrpc"
+)
+
+// Verification hooks: read-only views of unexported state and constructors
+// that accept an in-memory transport. Compiled only with `-tags verif`.
+
+// VerifCipherKeys returns the current send/receive keys, salts and nonces.
+func (b *Machine) VerifCipherKeys() (sendKey, sendSalt, recvKey, recvSalt [32]byte,
+	sendNonce, recvNonce uint64) {
+
+	return b.sendCipher.secretKey, b.sendCipher.salt,
+		b.recvCipher.secretKey, b.recvCipher.salt,
+		b.sendCipher.nonce, b.recvCipher.nonce
+}
+
+// VerifVersion returns the handshake version this side ended up with.
+func (b *Machine) VerifVersion() byte {
+	return b.version
+}
+
+// VerifNewNoiseConn wraps an established transport and a Machine that has
+// completed its handshake in a NoiseConn (the TCP variant's net.Conn).
+func VerifNewNoiseConn(conn net.Conn, noise *Machine) *NoiseConn {
+	return &NoiseConn{conn: conn, noise: noise}
+}
+
+// VerifStripJSONWrapper exposes stripJSONWrapper.
+func VerifStripJSONWrapper(s string) (string, error) {
+	return stripJSONWrapper(s)
+}
+
+// VerifNewServer builds a Server around an injected hashmail client (NewServer
+// itself dials gRPC).
+func VerifNewServer(serverHost string, connData *ConnData,
+	client hashmailrpc.HashMailClient,
+	onNewStatus func(status ServerStatus)) (*Server, error) {
+
+	sid, err := connData.SID()
+	if err != nil {
+		return nil, err
+	}
+
+	s := &Server{
+		serverHost:  serverHost,
+		client:      client,
+		connData:    connData,
+		sid:         sid,
+		onNewStatus: onNewStatus,
+		log:         log.WithPrefix("(server)"),
+		quit:        make(chan struct{}),
+	}
+	s.ctx, s.cancel = context.WithCancel(context.Background())
+
+	return s, nil
+}
+
+// VerifNewClient builds a Client around an injected hashmail client.
+func VerifNewClient(ctx context.Context, serverHost string, connData *ConnData,
+	client hashmailrpc.HashMailClient) (*Client, error) {
+
+	return NewClient(ctx, serverHost, connData, func(c *Client) {
+		c.grpcClient = client
+	})
+}
+
+// VerifOpen reports whether the connection handed out last is still open.
+func (s *Server) VerifOpen() bool {
+	if s.mailboxConn == nil {
+		return false
+	}
+	select {
+	case <-s.mailboxConn.Done():
+		return false
+	default:
+		return true
+	}
+}
+
+// VerifOpen reports whether the connection handed out last is still open.
+func (c *Client) VerifOpen() bool {
+	if c.mailboxConn == nil {
+		return false
+	}
+	select {
+	case <-c.mailboxConn.Done():
+		return false
+	default:
+		return true
+	}
+}
